@@ -28,7 +28,7 @@ CONSTANTS MaxPreds,      \* predecessors/successors per composition at job and s
 
 Range(f) == {f[x] : x \in DOMAIN f}
 
-Headers == {"push", "pydefault", "call"}
+Headers == {"push", "pydefault", "call", "callx"}
 
 \* [n: name, st: the rule state the construct bears (names the violation site), hdrs: headers under
 \*  which the entry is interesting, tool: its observable needs the shellcheck/pyflakes stand-ins]
@@ -39,8 +39,8 @@ JobItems ==
     J("matrix-expr", "matrix-loose", {}, FALSE),
     J("matrix-include-elem-expr", "matrix-loose", {}, FALSE),
     J("matrix-ref-without-matrix", "matrix", {}, FALSE),
-    J("matrix-from-inputs", "matrix-expr-shared-type", {"call"}, FALSE),
-    J("inputs-ref", "inputs", {"call"}, FALSE),
+    J("matrix-from-inputs", "matrix-expr-shared-type", {"call", "callx"}, FALSE),
+    J("inputs-ref", "inputs", {"call", "callx"}, FALSE),
     J("shell-python-default", "job-shell", {"pydefault"}, TRUE),
     J("shell-pwsh-default", "job-shell", {"pydefault"}, TRUE),
     J("shell-sh-default", "job-shell", {}, TRUE),
